@@ -34,19 +34,25 @@ func New[T any](ctx context.Context, cap int) (<-chan T, chan<- T) {
 
 	go func() {
 		defer close(eg)
-		defer close(in)
+
+		flush := func() {
+			for mq.head != nil {
+				eg <- head(mq)
+				deq(mq)
+			}
+		}
 
 		for {
 			select {
 			case <-ctx.Done():
-				for mq.head != nil {
-					eg <- head(mq)
-					deq(mq)
-				}
+				close(in)
+				flush()
 				return
 
 			case x, ok := <-in:
 				if !ok {
+					// closed by the sender: deliver the backlog, then end the stream
+					flush()
 					return
 				}
 				enq(&x, mq)
